@@ -195,6 +195,12 @@ def discharge(hyps, goal, timeout_ms=20000, use_cvc5=False, seed=0, want_model=T
     if v == 'sat':
         return dict(verdict='refuted', backend='z3/algebraic' if ab.used else 'z3', time_s=total, model=model, reason='')
     reason = why
+    if use_cvc5:
+        v2, dt2 = cvc5_check(fs_struct if ab.used else fs, timeout_ms)
+        total += dt2
+        if v2 == 'unsat':
+            return dict(verdict='proved', backend='cvc5/structural' if ab.used else 'cvc5', time_s=total, model=None, reason='')
+        reason += '; cvc5: %s' % v2
     if z3.is_false(goal):
         # constant-false goal (e.g. an aliasing / type fact decided by the executor): the obligation fails iff the path is
         # feasible.  Decide feasibility on the quantifier-free part of the hypotheses (a model of that part is reported).
@@ -213,12 +219,6 @@ def discharge(hyps, goal, timeout_ms=20000, use_cvc5=False, seed=0, want_model=T
         if v4 == 'sat':
             return dict(verdict='refuted', backend='z3/qf-candidate', time_s=total, model=model4, candidate=True,
                         reason='candidate model of the quantifier-free hypotheses; full query: %s' % reason)
-    if use_cvc5:
-        v2, dt2 = cvc5_check(fs_struct if ab.used else fs, timeout_ms)
-        total += dt2
-        if v2 == 'unsat':
-            return dict(verdict='proved', backend='cvc5/structural' if ab.used else 'cvc5', time_s=total, model=None, reason='')
-        reason += '; cvc5: %s' % v2
     return dict(verdict='unknown', backend='z3', time_s=total, model=None, reason=reason)
 
 
